@@ -146,8 +146,8 @@ def fields(rng, r):
     elif r.t == "SOA":
         soa = bytearray(b"(")
         for n in r.nums:
-            soa += bytes(rng.choice(b" \t\n") for _ in range(rng.randint(1, 2))) + numtxt(rng, n)
-        soa += bytes(rng.choice(b" \t\n") for _ in range(rng.randint(0, 2))) + b")"
+            soa += bytes(rng.choice(b" \t\n \t\n\r\x0b\x0c") for _ in range(rng.randint(1, 2))) + numtxt(rng, n)
+        soa += bytes(rng.choice(b" \t\n \t\n\r\x0b\x0c") for _ in range(rng.randint(0, 2))) + b")"
         f += [dotted(r.ns), dotted(r.contact), bytes(soa)]
     elif r.t == "DS":
         hexd = r.digest.hex()
